@@ -1,6 +1,7 @@
 """C16 — SMIv1 modules compile to the same objects as their SMIv2 transliteration."""
 import copy
 import json
+import re
 import random
 
 from gen import v1gen
@@ -67,6 +68,9 @@ def py_summary(text, name):
     return out, imports
 
 
+BRACED = re.compile(r'ENTERPRISE ([^\n{]*?)( VARIABLES | DESCRIPTION | REFERENCE | ::= )')
+
+
 def dotted(oid):
     return '.'.join(map(str, oid))
 
@@ -89,8 +93,14 @@ def run(ctx):
         res.count('pairs')
         inp = {'v1': t1, 'v2': t2}
         sums = {}
+        # the tolerated spelling ENTERPRISE { value } (relaxed grammar only) names the same enterprise
+        t1b = BRACED.sub(lambda m: 'ENTERPRISE { %s }%s' % (m.group(1), m.group(2)), t1)
+        if t1b != t1:
+            inp['v1b'] = t1b
+            res.count('braced-enterprise')
         for be in ('json', 'pysnmp'):
-            for label, text, dialect in (('v1', t1, 'smiV1'), ('v1r', t1, 'smiV1Relaxed'), ('v2', t2, 'smiV2')):
+            for label, text, dialect in (('v1', t1, 'smiV1'), ('v1r', t1, 'smiV1Relaxed'), ('v2', t2, 'smiV2')) + (
+                    (('v1b', t1b, 'smiV1Relaxed'),) if t1b != t1 else ()):
                 try:
                     st, out, comp = pipeline.compile_set({g.name: text}, backend=be, dialect=dialect, genTexts=False)
                 except Exception as e:
@@ -112,7 +122,7 @@ def run(ctx):
             if (be, 'v2') not in sums:
                 continue
             ref, ref_imp = sums[(be, 'v2')]
-            for label in ('v1', 'v1r'):
+            for label in ('v1', 'v1r', 'v1b'):
                 if (be, label) not in sums:
                     continue
                 got, got_imp = sums[(be, label)]
@@ -279,9 +289,9 @@ def replay(payload):
         return {'fails': str(st.get('ACME-V1-MIB')) != 'compiled'}
     name = 'ACME-V1-MIB'
     r = {}
-    for label, text, dialect in (('v1', inp['v1'], 'smiV1Relaxed'), ('v2', inp['v2'], 'smiV2')):
+    for label, text, dialect in (('v1', inp['v1'], 'smiV1Relaxed'), ('v2', inp['v2'], 'smiV2'), ('v1b', inp.get('v1b', inp['v1']), 'smiV1Relaxed')):
         st, out, comp = pipeline.compile_set({name: text}, backend='json', dialect=dialect)
         if str(st.get(name)) != 'compiled':
             return {'fails': True}
         r[label] = json_summary(json.loads(out[name]))
-    return {'fails': r['v1'] != r['v2']}
+    return {'fails': r['v1'] != r['v2'] or r['v1b'] != r['v2']}
